@@ -163,6 +163,10 @@ class SFloat:
             o = SFloat.of(o)
         except TypeError:
             return NotImplemented
+        if o.lo == o.hi == 0:
+            return self  # x + 0.0 is exact
+        if self.lo == self.hi == 0:
+            return o
         mp = None
         if self.minpos is not None and o.minpos is not None:
             mp = min(Fraction(self.minpos), Fraction(o.minpos))  # both non-negative: a positive sum is at least the smaller positive part
